@@ -2,7 +2,7 @@
  *
  *   L <text>     append <text> + newline to the program source (LPC text produced by the generator)
  *   sx <sexpr>   the same program as an S-expression - read by nvdrive only, ignored here
- *   run <n>      compile the accumulated source as /c03/prog (load_object with pre_text: the real lexer,
+ *   run <n>      write the accumulated source to /c03/prog.c of the run's mudlib copy and load it (the real lexer,
  *                preprocessor, grammar, code generator), then apply t0 .. t<n-1> in the real interpreter and
  *                print   r <i> <canonical value>   |   r <i> !err   |   r <i> !nofn
  *
@@ -158,7 +158,54 @@ static void run_prog (int nfn)
          inherit, which would look for a source file */
       if (!find_object_by_name ("c03/base"))
         load_object ("/c03/base.c", 0);
-      ob = load_object ("/c03/prog.c", src ? src : "");
+      {
+        /* the program is written into the run's private mudlib copy (cwd) and compiled from the file: no limit
+           on the size of the text (pre_text is limited) */
+        FILE *pf = fopen ("c03/prog.c", "w");
+        if (pf)
+          {
+            /* the lexer limits a source line to MAXLINE (1024) characters: break long lines at a blank outside
+               string literals */
+            int col = 0, inq = 0;
+            for (const char *q = src ? src : ""; *q; q++)
+              {
+                char ch = *q;
+                if (inq)
+                  {
+                    if (ch == '\\' && q[1])
+                      {
+                        fputc (ch, pf);
+                        ch = *++q;
+                        col++;
+                      }
+                    else if (ch == '"')
+                      inq = 0;
+                  }
+                else if (ch == '"')
+                  inq = 1;
+                if (ch == '\n')
+                  col = 0, inq = 0;
+                else
+                  col++;
+                if (!inq && ch == ' ' && col > 700 && q[1] != '\n' && src[0])
+                  {
+                    /* never inside a preprocessor line */
+                    const char *ls = q;
+                    while (ls > src && ls[-1] != '\n')
+                      ls--;
+                    if (*ls != '#')
+                      {
+                        fputc ('\n', pf);
+                        col = 0;
+                        continue;
+                      }
+                  }
+                fputc (ch, pf);
+              }
+            fclose (pf);
+          }
+      }
+      ob = load_object ("/c03/prog.c", 0);
       pop_context (&econ);
     }
   else
@@ -219,8 +266,110 @@ static void run_prog (int nfn)
     }
 }
 
+/* ---- maptrace: unit-style access to the mapping hash table (lib/lpc/mapping.c) --------------------------------
+ *   maptrace <tok> <tok> ...    two mappings A and B with integer keys and values
+ *     ai:<k>:<v> / bi:<k>:<v>   m[k] = v   (find_for_insert + assignment)
+ *     ad:<k> / bd:<k>           map_delete (m, k)
+ *     an:<n> / bn:<n>           m = allocate_mapping (n)
+ *     abs                       A += B     (absorb_mapping -> add_to_mapping)
+ *     plus                      C = A + B  (add_mapping); C is dumped and dropped
+ *   after every token the table of the mapping it touched is dumped:
+ *     T <tok> size=<buckets> unfilled=<n> count=<n> <bucket>:[k,k,..] ...     (chains from the head)
+ */
+static void map_dump (const char *tok, mapping_t * m)
+{
+  sb_t b = { 0, 0, 0 };
+  char tmp[64];
+  sb_put (&b, "");
+  for (int i = 0; i <= (int) m->table_size; i++)
+    {
+      if (!m->table[i])
+        continue;
+      snprintf (tmp, sizeof tmp, " %d:[", i);
+      sb_put (&b, tmp);
+      for (mapping_node_t * n = m->table[i]; n; n = n->next)
+        {
+          snprintf (tmp, sizeof tmp, "%s%lld", n == m->table[i] ? "" : ",", (long long) n->values[0].u.number);
+          sb_put (&b, tmp);
+        }
+      sb_put (&b, "]");
+    }
+  fprintf (stderr, "VL T %s size=%d unfilled=%d count=%d%s\n", tok, (int) m->table_size + 1, (int) m->unfilled, (int) m->count, b.p);
+  fflush (stderr);
+  free (b.p);
+}
+
+static void maptrace (char *line)
+{
+  mapping_t *A = allocate_mapping (0), *B = allocate_mapping (0);
+  char *save = 0;
+  for (char *tok = strtok_r (line, " ", &save); tok; tok = strtok_r (0, " ", &save))
+    {
+      error_context_t econ;
+      char name[64];
+      snprintf (name, sizeof name, "%s", tok);
+      save_context (&econ);
+      if (setjmp (econ.context))
+        {
+          restore_context (&econ);
+          pop_context (&econ);
+          vh_out ("T %s !err", name);
+          continue;
+        }
+      mapping_t **mp = tok[0] == 'b' ? &B : &A;
+      if (!strcmp (tok, "abs"))
+        {
+          absorb_mapping (A, B);
+          map_dump (name, A);
+        }
+      else if (!strcmp (tok, "plus"))
+        {
+          mapping_t *C = add_mapping (A, B);
+          map_dump (name, C);
+          free_mapping (C);
+        }
+      else if (tok[1] == 'i')
+        {
+          svalue_t key, *dst;
+          long long k = 0, v = 0;
+          sscanf (tok + 3, "%lld:%lld", &k, &v);
+          key.type = T_NUMBER;
+          key.subtype = 0;
+          key.u.number = k;
+          dst = find_for_insert (*mp, &key, 1);
+          dst->type = T_NUMBER;
+          dst->subtype = 0;
+          dst->u.number = v;
+          map_dump (name, *mp);
+        }
+      else if (tok[1] == 'd')
+        {
+          svalue_t key;
+          key.type = T_NUMBER;
+          key.subtype = 0;
+          key.u.number = atoll (tok + 3);
+          mapping_delete (*mp, &key);
+          map_dump (name, *mp);
+        }
+      else if (tok[1] == 'n')
+        {
+          free_mapping (*mp);
+          *mp = allocate_mapping ((size_t) atoll (tok + 3));
+          map_dump (name, *mp);
+        }
+      else
+        vh_out ("T %s !badtoken", name);
+      pop_context (&econ);
+    }
+}
+
 static int c03_cmd (char *line)
 {
+  if (!strncmp (line, "maptrace ", 9))
+    {
+      maptrace (line + 9);
+      return 1;
+    }
   if (!strncmp (line, "L ", 2) || !strcmp (line, "L"))
     {
       src_add (line[1] ? line + 2 : "");
